@@ -84,6 +84,10 @@ def parse_events(rng, sc, lha, hdr, tier, ev):
     out = []
     words = ["x", "e", "t", "p", "l", "v", "-x", "-t", "--t", "xq", "xq0", "xq1", "xq2", "xq3", "xq9", "xqq", "xq1q", "tq1n", "xfin", "xnf", "xw", "xw=", "xw=o",
              "xwo", "xfw=o", "xw=of", "xw==o", "xnw-o", "tw-o", "xnw=-o", "pnwq1", "xnwf", "tz", "z", "", "-", "xQ", "x0", "xqf", "tqn", "pn", "pq", "pq1", "xiq0", "xvq1f", "xn", "en", "tn", "T", "X"]
+    import itertools
+    for L in ((1, 2) if tier == "quick" else (1, 2, 3)):          # exhaustive short words
+        words += ["".join(t) for t in itertools.product("xtplq09finvw=-z", repeat=L)]
+    words = sorted(set(words), key=lambda w: (len(w), w))
     alpha = "lvtexpfinqw=0129z-"
     for _ in range(30 if tier == "quick" else 600):
         words.append(rng.choice("lvtexp-z") + "".join(rng.choice(alpha) for _ in range(rng.randint(0, 5))))
@@ -111,6 +115,7 @@ def parse_events(rng, sc, lha, hdr, tier, ev):
         ev.cls(("parse", helped, w[:1]))
         shutil.rmtree(cwd, ignore_errors=True)
     ev.add("command_words_tried", len(words))
+    ev.set("command_words_exhaustive_up_to_length", 2 if tier == "quick" else 3)
     return out
 
 
